@@ -68,6 +68,18 @@ Proof. intros. destruct (m_start_frame nw wo costv durv m) as [_ [_ [_ [_ [_ [_ 
 Theorem C13_clock_invariant_always : forall sc s d x, reach_fl sc s -> aget d (f_devs (fst s)) = Some x -> AcctInv x.
 Proof. intros sc s d x H Hx. exact (proj1 (proj2 (proj2 (proj2 (proj2 (reach_dev sc s d x H Hx)))))). Qed.
 
+(** a processor constructed while the simulation is in progress (at [nw], between two events): right after its construction it
+    reports as uptime and utilisation what it had accumulated before — nothing for a fresh device; the time before its creation is not
+    counted, and from there [C13_accounting_time] and [C13_accounting_event] apply as for any other processor *)
+Theorem C13_late_processor_clocks_start_at_creation : forall sc s d ups x,
+  reach_fl sc s -> aget d (f_devs (fst s)) = Some x -> d_kind x = KProcessor -> d_live x = false -> pristine x = true ->
+  d_up x = [] -> d_down x = [] ->
+  let nw := now (snd s) in
+  exists x', aget d (f_devs (late_create (fl_fuel (fst s)) nw (fst s) d ups)) = Some x' /\ d_kind x' = KProcessor /\
+             up_total nw x' = d_uptime x /\ use_total nw x' = d_inuse x.
+Proof. intros sc s d ups x HR. apply late_create_clock. apply (reach_good sc s HR). Qed.
+Print Assumptions C13_late_processor_clocks_start_at_creation.
+
 Print Assumptions C13_shut_accepts_nothing.
 Print Assumptions C13_shut_releases_nothing.
 Print Assumptions C13_failure_effect.
